@@ -81,7 +81,26 @@ func (set *TemplateSet) AddLoader(loaders ...TemplateLoader) {
 }
 
 func (set *TemplateSet) resolveFilename(tpl *Template, path string) string {
-	return set.resolveFilenameForLoader(set.loaders[0], tpl, path)
+	first := set.resolveFilenameForLoader(set.loaders[0], tpl, path)
+	for _, other := range set.loaders[1:] {
+		if set.resolveFilenameForLoader(other, tpl, path) == first {
+			continue
+		}
+		// The loaders spell this name differently (e. g. they have different
+		// base directories), so the name as the first loader spells it would
+		// never be found in the others: the first loader that has it decides.
+		for _, loader := range set.loaders {
+			name := set.resolveFilenameForLoader(loader, tpl, path)
+			if fd, err := loader.Get(name); err == nil {
+				if closer, ok := fd.(io.Closer); ok {
+					closer.Close()
+				}
+				return name
+			}
+		}
+		break
+	}
+	return first
 }
 
 func (set *TemplateSet) resolveFilenameForLoader(loader TemplateLoader, tpl *Template, path string) string {
